@@ -79,8 +79,8 @@ Print Assumptions script_simulation.
 (* THE REFINEMENT THEOREM (services, task calls, Parallel, Condition with or without a Failed
    block, While loops, arbitrarily nested; and sequential counting loops -- constant or queried
    limit, arbitrarily nested with Conditions / While loops / each other, any of the above in
-   their bodies -- that stand in the production task itself, in programs whose parameter lists
-   do not mention loop indices; see Main.in_fragment.  Components may
+   their bodies, also inside called tasks: every task instance has its own counters --, in
+   programs whose parameter lists do not mention loop indices; see Main.in_fragment.  Components may
    complete at once, inside the evaluation that the callback of a Condition or of a loop opens,
    and loop bodies are entered again with the identifiers of the previous iteration still in the
    API records; every kind of API call in the script; the answers of the variable access
@@ -253,7 +253,7 @@ Proof.
 Qed.
 Print Assumptions exw_refines.
 
-(* Counting loops (in the production task): a loop with a constant limit whose body is a service
+(* Counting loops: a loop with a constant limit whose body is a service
    and a task call (two iterations); a loop whose limit is queried from the variable access
    function before every test, with a nested counting loop and a Condition in its body (the test
    of the Condition fails in the second iteration); a loop with no iteration.  No parameter
@@ -288,6 +288,44 @@ Proof.
   exists f0. intros f Hf. rewrite Href. apply H. exact Hf.
 Qed.
 Print Assumptions exl_refines.
+
+(* Counting loops inside called tasks: every task instance has its own loop counters.  A task with
+   a counting loop is called from inside a While loop (two iterations: two instances one after
+   the other) and twice in the same Parallel (two instances at the same time, with the same loop
+   sites); a task whose counting loop (limit queried before every test) calls a task with two
+   nested counting loops; a counting loop of the production task that calls that task again.
+   The completions of the Parallel's services arrive out of order; one is reported twice. *)
+Definition exk_tasks : list task :=
+  [{| t_name := 0; t_ins := [];
+      t_body := [SWhile (lt3 30) [SCall (cl 17)];
+                 SParallel [cl 17; cl 18; cl 17];
+                 SCount false 44 (LimInt 2) [SCall (cl 19)]];
+      t_outs := [] |};
+   {| t_name := 17; t_ins := []; t_body := [SCount false 40 (LimInt 2) [SService 26 [PVar 16] []]; SService 27 [] []]; t_outs := [] |};
+   {| t_name := 18; t_ins := []; t_body := [SCount false 41 (LimPath 30 [PF 4]) [SCall (cl 19)]]; t_outs := [] |};
+   {| t_name := 19; t_ins := [];
+      t_body := [SCount false 42 (LimInt 1) [SCount false 43 (LimInt 1) [SService 28 [] []]]]; t_outs := [] |}].
+Definition exk_case : runcase :=
+  {| rc_prog := {| p_structs := []; p_tasks := exk_tasks |};
+     rc_vals := map (fun n => VStruct [(4, VNum (QArith_base.Qmake n 1%positive))]) [1; 1; 7; 2; 2; 2]%Z;
+     rc_imm := [false];
+     rc_script := [AStart; AFinish 0; AFinish 1; AFinish 2; AFinish 3; AFinish 4; AFinish 5; AJunk; AFinish 7; AFinish 6;
+                   AFinish 8; AFinish 8; AFinish 9; AFinish 10; AFinish 11; AFinish 12; AFinish 13; AFinish 14; AFinish 15];
+     rc_react := [None]; rc_react_all := false; rc_mutate := 0; rc_test_ids := true |}.
+
+Example exk_in_fragment : in_fragment exk_case = true.
+Proof. vm_compute. reflexivity. Qed.
+
+Example exk_runs : exists tr, run_ref exk_case = Ok tr /\ List.length tr = 19 /\ existsb (fun r => cr_final r) tr = true
+                              /\ run_net exk_case = Ok tr.
+Proof. eexists. split; [vm_compute; reflexivity|]. split; [reflexivity|]. split; [reflexivity|]. vm_compute. reflexivity. Qed.
+
+Example exk_refines : exists f0, forall f, f0 <= f -> run_net_f f exk_case = run_ref exk_case.
+Proof.
+  destruct exk_runs as (tr & Href & _). destruct (Main.net_refines_ref_fragment exk_case exk_in_fragment tr Href) as [f0 H].
+  exists f0. intros f Hf. rewrite Href. apply H. exact Hf.
+Qed.
+Print Assumptions exk_refines.
 
 (* Immediate completions: the engine reports some services as finished from inside their
    service-started notification ([rc_imm]); everything that such a completion triggers -- the
